@@ -66,10 +66,15 @@ def scenario_for(causes, line_level=False, pubsub=False):
         sio = w.sio
         log = w.log
 
+        xsid = [None]
+
         @sio.on('disconnect')
         def d(sid, reason):
             log.append(('disconnect', '/', sid, reason))
             sched.point('handler')
+            if sid == xsid[0]:
+                raise RuntimeError('scripted fault in the disconnect '
+                                   'handler of another client')
 
         @sio.on('disconnect', namespace='/x')
         def dx(sid, reason):
@@ -81,6 +86,13 @@ def scenario_for(causes, line_level=False, pubsub=False):
         sock = w.transports[t]
         sid = w.sid_of(t, '/')
         sidx = w.sid_of(t, '/x')
+        xsock = None
+        if 'xloss' in causes:
+            # another client of '/', whose disconnect handler raises
+            tx = w.new_transport()
+            w.recv_packet(tx, 0, '/')
+            xsock = w.transports[tx]
+            xsid[0] = w.sid_of(tx, '/')
         w.drain_all()
         calls = []
         real_manager, real_eio = sio.manager, sio.eio
@@ -99,6 +111,9 @@ def scenario_for(causes, line_level=False, pubsub=False):
                 sock.close(wait=False, abort=True, reason='transport close')
             elif name == 'sib':
                 sio.disconnect(sidx, namespace='/x')
+            elif name == 'xloss':
+                xsock.close(wait=False, abort=True,
+                            reason='transport close')
         for i, c in enumerate(causes):
             sched.spawn(cause, c, name='%s#%d' % (c, i))
 
@@ -108,9 +123,10 @@ def scenario_for(causes, line_level=False, pubsub=False):
             snap = w.snapshot()
             return {
                 'status': status,
-                'log': [n(e) for e in log],
+                'log': [n(e) for e in log if e[2] != xsid[0]],
                 'excs': [(t.name, type(t.exc).__name__, str(t.exc))
-                         for t in sched.threads if t.exc is not None],
+                         for t in sched.threads if t.exc is not None
+                         and not t.name.startswith('xloss')],
                 'task_errors': list(w.task_errors),
                 'snap': snap,
                 'sid': n(sid), 'sidx': n(sidx),
@@ -150,7 +166,7 @@ def judge(causes, out):
     sid, sidx = out['sid'], out['sidx']
     if out['status'] != 'done':
         return [('C20/stuck', f'execution ended {out["status"]}: {out}')]
-    main_causes = [c for c in causes if c != 'sib']
+    main_causes = [c for c in causes if c not in ('sib', 'xloss')]
     sib_causes = [c for c in causes if c in ('sib', 'loss')]
     for name, s, cs in (('main', sid, main_causes),
                         ('sibling', sidx, sib_causes)):
@@ -228,10 +244,16 @@ def run(tier, seed, result):
     if tier == 'thorough':
         for causes in itertools.combinations(CAUSES, 3):
             jobs.append((causes, False, 3, 60000))
+        for pair in (('sdisc', 'cdisc'), ('sdisc', 'loss'),
+                     ('cdisc', 'cdisc')):
+            jobs.append((pair + ('xloss',), False, 3, 60000))
         for causes in itertools.combinations(CAUSES, 2):
             jobs.append((causes, True, 2, 60000))
     else:
         jobs.append((('sdisc', 'cdisc', 'loss'), False, 1, 4000))
+        # a third party: another client of the namespace is lost and its
+        # disconnect handler raises while two actions end the main client
+        jobs.append((('sdisc', 'cdisc', 'xloss'), False, 2, 6000))
         jobs.append((('sdisc', 'loss'), True, 1, 3000))
     total = 0
     notes = []
